@@ -40,10 +40,24 @@ type StructDataProvider struct {
 	tag   *string
 }
 
+// fieldByName looks a field up without panicking: Value.FieldByName panics when the field is promoted
+// through a nil embedded pointer
+func (s *StructDataProvider) fieldByName(key string) (reflect.Value, bool) {
+	sf, ok := s.value.Type().FieldByName(key)
+	if !ok {
+		return reflect.Value{}, false
+	}
+	field, err := s.value.FieldByIndexErr(sf.Index)
+	if err != nil || !field.CanInterface() {
+		return reflect.Value{}, false
+	}
+	return field, true
+}
+
 func (s *StructDataProvider) Get(key string) any {
-	field := s.value.FieldByName(key)
-	if !field.IsValid() || !field.CanInterface() {
-		// no such field, or an unexported one: absent
+	field, ok := s.fieldByName(key)
+	if !ok {
+		// no such field, an unexported one, or one promoted from a nil embedded pointer: absent
 		return nil
 	}
 	return field.Interface()
@@ -55,8 +69,8 @@ func (s *StructDataProvider) GetByField(field reflect.StructField, fallback stri
 }
 
 func (s *StructDataProvider) GetNestedProvider(key string) DataProvider {
-	field := s.value.FieldByName(key)
-	if !field.IsValid() || !field.CanInterface() {
+	field, ok := s.fieldByName(key)
+	if !ok {
 		return nil
 	}
 	dataProvider, _ := TryNewAnyDataProvider(field.Interface())
